@@ -1,4 +1,5 @@
 import Invoke.Lemmas.RunnerTimer
+import Invoke.Model.Rejoin
 /-! # A second `Promise.join()` takes the same decision
 
 `Promise.join()` may be called again (explicitly, or by leaving `with promise:` after a join): `Runner._finish` is
@@ -6,9 +7,6 @@ re-entered on a run whose first join is over.  `rejoin` is that re-entry in the 
 that the decision - return, unexpected exit, timed-out failure, worker exception - is the one of the first join,
 along EVERY schedule of the second pass (timer thread and environment included). -/
 namespace Inv
-
-/-- `_finish` is entered again: the main thread is back in the wait loop, every flag is as the first pass left it -/
-def rejoin (s : S) : S := { s with mainPc := .poll }
 
 /-- what the second pass relies on, relative to the decision `t` it has to reproduce -/
 structure RJ (t : Outcome) (x : S) : Prop where
